@@ -82,6 +82,10 @@ struct Tr<'a> {
     loop_depth: usize,
     loop_sr: Vec<Vec<String>>, // enclosing state-and-return loops: their state variables
     loop_brk: Vec<Vec<String>>, // enclosing `loop`s: their state variables
+    file: Option<&'a syn::File>,  // the source file of the target: private helpers it calls are inlined from here
+    self_ty: Option<String>,      // the impl type of the target
+    mode_override: Vec<String>,   // return mode of the helper being inlined
+    inline_depth: usize,
 }
 
 type R<T> = Result<T, String>;
@@ -204,6 +208,13 @@ impl<'a> Tr<'a> {
                     "u8" => Ok((format!("({} mod 256)", a), Kind::Num)),
                     "u64" | "usize" => Ok((a, Kind::Num)),
                     _ => Err(format!("cast to {}", ty)),
+                }
+            }
+            Expr::Binary(b) if matches!(b.op, BinOp::Shl(_)) => {
+                // only a constant shift is in the subset (e.g. 1 << 10)
+                match const_eval(e, &self.t.consts) {
+                    Some(v) => Ok((v.to_string(), Kind::Num)),
+                    None => Err(format!("non-constant shift {}", text)),
                 }
             }
             Expr::Binary(b) => {
@@ -390,7 +401,19 @@ impl<'a> Tr<'a> {
                 let key = format!("{}/{}", m.method, m.args.len());
                 let (tmpl, kind, partial) = match self.t.method.get(&key) {
                     Some(x) => x.clone(),
-                    None => return Err(format!("method {} in {}", key, text)),
+                    None => {
+                        if toks(&m.receiver) == "self" {
+                            if let Some((body, k, mode)) = self.try_inline(&m.method.to_string(), true, true, m.args.iter().collect(), binds)? {
+                                if mode == "result" {
+                                    return Err(format!("the Result of the inlined helper {} is used other than by `?`: {}", m.method, text));
+                                }
+                                let n = self.fresh("h");
+                                binds.push((n.clone(), body));
+                                return Ok((n, k));
+                            }
+                        }
+                        return Err(format!("method {} in {}", key, text));
+                    }
                 };
                 let mut args = vec![self.expr(&m.receiver, binds)?.0];
                 for a in &m.args {
@@ -409,7 +432,19 @@ impl<'a> Tr<'a> {
                 let key = format!("{}/{}", toks(&c.func), c.args.len());
                 let (tmpl, kind, partial) = match self.t.call.get(&key) {
                     Some(x) => x.clone(),
-                    None => return Err(format!("call {} in {}", key, text)),
+                    None => {
+                        if let Some((name, in_impl)) = self.helper_of_call(&c.func) {
+                            if let Some((body, k, mode)) = self.try_inline(&name, in_impl, false, c.args.iter().collect(), binds)? {
+                                if mode == "result" {
+                                    return Err(format!("the Result of the inlined helper {} is used other than by `?`: {}", name, text));
+                                }
+                                let n = self.fresh("h");
+                                binds.push((n.clone(), body));
+                                return Ok((n, k));
+                            }
+                        }
+                        return Err(format!("call {} in {}", key, text));
+                    }
                 };
                 let mut args = vec![String::new()];
                 for a in &c.args {
@@ -439,6 +474,34 @@ impl<'a> Tr<'a> {
                     parts.push(self.expr(&f.expr, binds)?.0);
                 }
                 Ok((format!("({} {})", ctor, parts.join(" ")), Kind::Other))
+            }
+            Expr::If(i) if i.else_branch.is_some() && !matches!(&*i.cond, Expr::Let(_)) => {
+                // if c { a } else { b } used as a value: each branch keeps its own partial operations
+                let (c, _) = self.expr(&i.cond, binds)?;
+                let branch = |me: &mut Self, b: &Block| -> R<(String, Kind)> {
+                    if b.stmts.len() != 1 {
+                        return Err(format!("a branch of a value `if` with statements: {}", text));
+                    }
+                    match &b.stmts[0] {
+                        Stmt::Expr(e, None) => {
+                            let mut bb = Vec::new();
+                            let (v, k) = me.expr(e, &mut bb)?;
+                            Ok((Self::wrap_binds(bb, format!("Ok {}", v)), k))
+                        }
+                        _ => Err(format!("a branch of a value `if` with statements: {}", text)),
+                    }
+                };
+                let (a, ka) = branch(self, &i.then_branch)?;
+                let (b, _) = match &i.else_branch {
+                    Some((_, eb)) => match &**eb {
+                        Expr::Block(bl) => branch(self, &bl.block)?,
+                        _ => return Err(format!("else-if in a value `if`: {}", text)),
+                    },
+                    None => unreachable!(),
+                };
+                let n = self.fresh("v");
+                binds.push((n.clone(), format!("if {} then {} else {}", c, a, b)));
+                Ok((n, ka))
             }
             Expr::Array(a) => {
                 // [a, b, c]: a list
@@ -520,6 +583,13 @@ impl<'a> Tr<'a> {
                     }
                     return Ok(Self::subst(&tmpl, &args));
                 }
+                if toks(&m.receiver) == "self" && !self.t.method.contains_key(&key) {
+                    if let Some((body, _, mode)) = self.try_inline(&m.method.to_string(), true, true, m.args.iter().collect(), binds)? {
+                        if mode == "result" {
+                            return Ok(body);
+                        }
+                    }
+                }
                 Err(format!("`?` / result position on a method that is not fallible in the table: {}", text))
             }
             Expr::Call(c) => {
@@ -530,6 +600,15 @@ impl<'a> Tr<'a> {
                         args.push(self.expr(a, binds)?.0);
                     }
                     return Ok(Self::subst(&tmpl, &args));
+                }
+                if !self.t.call.contains_key(&key) {
+                    if let Some((name, in_impl)) = self.helper_of_call(&c.func) {
+                        if let Some((body, _, mode)) = self.try_inline(&name, in_impl, false, c.args.iter().collect(), binds)? {
+                            if mode == "result" {
+                                return Ok(body);
+                            }
+                        }
+                    }
                 }
                 Err(format!("`?` / result position on a call that is not fallible in the table: {}", text))
             }
@@ -549,7 +628,7 @@ impl<'a> Tr<'a> {
             }
             return Ok(Self::wrap_binds(binds, format!("obind ({}) (fun r_ret => Ok ({}, Some r_ret))", body, Self::tuple_of(&parts))));
         }
-        let body = if self.t.retstate.is_empty() {
+        let body = if self.t.retstate.is_empty() || self.inlining() {
             body
         } else {
             format!("obind ({}) (fun r_v => {})", body, self.final_value("r_v")?)
@@ -563,7 +642,8 @@ impl<'a> Tr<'a> {
     }
 
     fn ret_inner(&mut self, e: &Expr, binds: &mut Vec<(String, String)>) -> R<String> {
-        let mode = self.t.retmode.as_str();
+        let mode_s = self.mode();
+        let mode = mode_s.as_str();
         match e {
             Expr::Paren(p) => return self.ret_inner(&p.expr, binds),
             Expr::Call(c) if mode == "result" => {
@@ -650,7 +730,7 @@ impl<'a> Tr<'a> {
 
     // the function's result for a returned value: the value, and the final state when the table asks for it
     fn final_value(&self, raw: &str) -> R<String> {
-        if self.t.retstate.is_empty() {
+        if self.t.retstate.is_empty() || self.inlining() {
             return Ok(format!("Ok {}", raw));
         }
         let mut parts = Vec::new();
@@ -658,6 +738,110 @@ impl<'a> Tr<'a> {
             parts.push(self.lookup(v).ok_or(format!("retstate variable {}", v))?.0);
         }
         Ok(format!("Ok ({}, {})", raw, Self::tuple_of(&parts)))
+    }
+
+    fn mode(&self) -> String {
+        self.mode_override.last().cloned().unwrap_or(self.t.retmode.clone())
+    }
+    fn inlining(&self) -> bool {
+        !self.mode_override.is_empty()
+    }
+
+    // ---- a call to a function that is not in the table but is defined in the same source file (a
+    // private helper): its body is translated in place, with its parameters bound to the arguments.
+    // Returns the body as a term of type `res T`, the kind of T and the helper's return mode.
+    fn try_inline(&mut self, fname: &str, in_impl: bool, takes_self: bool, args: Vec<&Expr>, binds: &mut Vec<(String, String)>) -> R<Option<(String, Kind, String)>> {
+        let file = match self.file { Some(f) => f, None => return Ok(None) };
+        if self.inline_depth >= 3 {
+            return Ok(None);
+        }
+        let found = if in_impl {
+            match &self.self_ty { Some(ty) => find_fn(file, &format!("{}::{}", ty, fname)), None => None }
+        } else {
+            find_fn(file, fname)
+        };
+        let (sig, block) = match found { Some(x) => x, None => return Ok(None) };
+        let has_recv = sig.inputs.iter().any(|a| matches!(a, syn::FnArg::Receiver(_)));
+        if has_recv != takes_self {
+            return Ok(None);
+        }
+        if let Some(syn::FnArg::Receiver(r)) = sig.inputs.first() {
+            if r.mutability.is_some() {
+                return Ok(None); // a helper that mutates self is only inlined as a statement
+            }
+        }
+        let params: Vec<(String, String)> = sig.inputs.iter().filter_map(|a| match a {
+            syn::FnArg::Typed(p) => Some((match &*p.pat { Pat::Ident(i) => i.ident.to_string(), o => toks(o) }, toks(&p.ty))),
+            _ => None,
+        }).collect();
+        if params.len() != args.len() || params.iter().any(|(_, ty)| ty.starts_with("&mut")) {
+            return Ok(None);
+        }
+        let (mode, rkind) = match &sig.output {
+            syn::ReturnType::Default => ("unit".to_string(), Kind::Other),
+            syn::ReturnType::Type(_, ty) => {
+                let t = toks(&**ty);
+                if t == "()" {
+                    ("unit".to_string(), Kind::Other)
+                } else if let Some(inner) = t.strip_prefix("Result<") {
+                    ("result".to_string(), type_kind(inner.split(',').next().unwrap_or("")))
+                } else if let Some(inner) = t.strip_prefix("Option<") {
+                    ("option".to_string(), type_kind(inner.trim_end_matches('>')))
+                } else {
+                    ("value".to_string(), type_kind(&t))
+                }
+            }
+        };
+        let mut argv = Vec::new();
+        for a in &args {
+            argv.push(self.expr(a, binds)?.0);
+        }
+        // the helper sees the caller's `self` / `self.field` variables and its own parameters
+        let mut base: HashMap<String, (String, Kind)> = HashMap::new();
+        for m in &self.env {
+            for (k, v) in m {
+                if k == "self" || k.starts_with("self.") {
+                    base.insert(k.clone(), v.clone());
+                }
+            }
+        }
+        let mut pm: HashMap<String, (String, Kind)> = HashMap::new();
+        for ((name, ty), a) in params.iter().zip(argv.iter()) {
+            pm.insert(name.clone(), (a.clone(), type_kind(ty)));
+        }
+        let saved_env = std::mem::replace(&mut self.env, vec![base, pm]);
+        let saved_sr = std::mem::take(&mut self.loop_sr);
+        let saved_brk = std::mem::take(&mut self.loop_brk);
+        let saved_depth = self.loop_depth;
+        self.loop_depth = 0;
+        self.mode_override.push(mode.clone());
+        self.inline_depth += 1;
+        let body = self.seq(&block.stmts, &K::End);
+        self.inline_depth -= 1;
+        self.mode_override.pop();
+        self.loop_depth = saved_depth;
+        self.loop_brk = saved_brk;
+        self.loop_sr = saved_sr;
+        self.env = saved_env;
+        let body = body.map_err(|e| format!("in the inlined helper {}: {}", fname, e))?;
+        Ok(Some((body, rkind, mode)))
+    }
+
+    // callee name of a call expression that could be a private helper: (name, is it in the impl?)
+    fn helper_of_call(&self, func: &Expr) -> Option<(String, bool)> {
+        let t = toks(func);
+        if let Some(rest) = t.strip_prefix("Self::") {
+            return Some((rest.to_string(), true));
+        }
+        if let Some(ty) = &self.self_ty {
+            if let Some(rest) = t.strip_prefix(&format!("{}::", ty)) {
+                return Some((rest.to_string(), true));
+            }
+        }
+        if !t.contains("::") {
+            return Some((t, false));
+        }
+        None
     }
 
     fn tuple_of(v: &[String]) -> String {
@@ -679,8 +863,57 @@ impl<'a> Tr<'a> {
         self.t.mutmethod.keys().chain(self.t.pmutmethod.keys()).chain(self.t.rmutmethod.keys()).cloned().collect()
     }
 
+    // which self.* variables each `&mut self` helper of the target's impl assigns (so that a call to a
+    // helper that is inlined as a statement is seen as assigning them)
+    fn helper_effects(&self) -> HashMap<String, Vec<String>> {
+        let mut out: HashMap<String, Vec<String>> = HashMap::new();
+        let (file, ty) = match (self.file, &self.self_ty) { (Some(f), Some(t)) => (f, t.clone()), _ => return out };
+        let stmt_vars: Vec<(String, Vec<String>)> = self
+            .t
+            .smap
+            .iter()
+            .map(|(k, vs, _)| (k.clone(), vs.clone()))
+            .chain(self.t.condmut.iter().map(|(k, vs, _)| (k.clone(), vs.clone())))
+            .chain(self.t.scrutmut.iter().map(|(k, vs, _)| (k.clone(), vs.clone())))
+            .chain(self.t.condeff.iter().map(|(k, vs, _)| (k.clone(), vs.clone())))
+            .chain(self.t.leteff.iter().map(|(k, vs, _)| (k.clone(), vs.clone())))
+            .chain(self.t.psmap.iter().map(|(k, vs, _)| (k.clone(), vs.clone())))
+            .collect();
+        // two passes: a helper may call another helper
+        for _ in 0..2 {
+            for it in &file.items {
+                if let Item::Impl(im) = it {
+                    if toks(&im.self_ty) != ty {
+                        continue;
+                    }
+                    for ii in &im.items {
+                        if let syn::ImplItem::Fn(m) = ii {
+                            let mutself = matches!(m.sig.inputs.first(), Some(syn::FnArg::Receiver(r)) if r.mutability.is_some());
+                            if !mutself {
+                                continue;
+                            }
+                            let sc = Scan {
+                                helpers: out.clone(),
+                                has_break: false,
+                                value_return: false,
+                                assigned: Vec::new(),
+                                mutmethods: self.mut_keys(),
+                                stmt_vars: stmt_vars.clone(),
+                            };
+                            let sc = scan_block_with(&m.block, sc);
+                            let vars: Vec<String> = sc.assigned.into_iter().filter(|v| v.starts_with("self.")).collect();
+                            out.insert(m.sig.ident.to_string(), vars);
+                        }
+                    }
+                }
+            }
+        }
+        out
+    }
+
     fn mk_scan(&self) -> Scan {
         Scan {
+            helpers: self.helper_effects(),
             has_break: false,
             value_return: false,
             assigned: Vec::new(),
@@ -724,9 +957,9 @@ impl<'a> Tr<'a> {
     fn finish(&mut self, k: &K) -> R<String> {
         match k {
             K::End => {
-                if self.t.retmode == "unit" {
+                if self.mode() == "unit" {
                     Ok("Ok tt".to_string())
-                } else if self.t.retmode == "mutself" {
+                } else if self.mode() == "mutself" {
                     self.retvars_value()
                 } else {
                     Err("control reaches the end of a non-unit function".into())
@@ -877,6 +1110,48 @@ impl<'a> Tr<'a> {
                 let restc = self.seq(rest, k)?;
                 Ok(Self::wrap_binds(binds, format!("obind ({}) (fun '({}, {}) =>\n{})", v, c, rc, restc)))
             }
+            Stmt::Local(l) if l.init.as_ref().map(|i| matches!(&*i.expr, Expr::Match(m) if m.arms.iter().any(|a| matches!(&*a.body, Expr::Return(_))))).unwrap_or(false) => {
+                // let x = match e { P => v, Q => return r };  — the arms that yield a value go on with x bound
+                let init = l.init.as_ref().unwrap();
+                let m = match &*init.expr { Expr::Match(m) => m, _ => unreachable!() };
+                let name = match &l.pat {
+                    Pat::Ident(i) => i.ident.to_string(),
+                    _ => return Err(format!("let pattern {}", toks(&l.pat))),
+                };
+                let mut binds = Vec::new();
+                let (scrut, _) = self.expr(&m.expr, &mut binds)?;
+                let mut out = format!("match {} with\n", scrut);
+                for a in &m.arms {
+                    if a.guard.is_some() {
+                        return Err("guard in a let-match with a returning arm".into());
+                    }
+                    let saved = self.env.clone();
+                    self.env.push(HashMap::new());
+                    let pat = self.pattern(&a.pat)?;
+                    let body = if let Expr::Return(r) = &*a.body {
+                        match &r.expr {
+                            Some(x) => self.ret(x)?,
+                            None => return Err("bare return in a let-match".into()),
+                        }
+                    } else {
+                        let mut ab = Vec::new();
+                        let (v, kind) = self.expr(&a.body, &mut ab)?;
+                        let kind = self.t.kinds.get(&name).cloned().unwrap_or(kind);
+                        let c = self.bind(&name, kind);
+                        let restc = self.seq(rest, k)?;
+                        Self::wrap_binds(ab, format!("let {} := {} in\n{}", c, v, restc))
+                    };
+                    self.env = saved;
+                    let _ = write!(out, "| {} =>\n{}\n", pat, body);
+                }
+                let on_result = m.arms.iter().any(|a| matches!(&a.pat, Pat::TupleStruct(ts) if { let n = toks(&ts.path); n == "Ok" || n == "Err" }));
+                let has_wild = m.arms.iter().any(|a| matches!(a.pat, Pat::Wild(_)));
+                if on_result && !has_wild {
+                    out.push_str("| Panic s_panic => Panic s_panic\n");
+                }
+                out.push_str("end");
+                Ok(Self::wrap_binds(binds, out))
+            }
             Stmt::Local(l) if l.init.as_ref().map(|i| matches!(&*i.expr, Expr::Match(m) if m.arms.iter().any(|a| self.arm_needs_block(&a.body)))).unwrap_or(false) => {
                 // let x = match e { P => fallible-or-block, ... };
                 let init = l.init.as_ref().unwrap();
@@ -937,6 +1212,15 @@ impl<'a> Tr<'a> {
                 } else {
                     Ok(format!("obind ({}) (fun '({}, {}) =>\n{})", inner, c, Self::tuple_of(&names), restc))
                 }
+            }
+            Stmt::Local(l) if matches!(&l.pat, Pat::Tuple(_)) && !matches!(l.init.as_ref().map(|i| &*i.expr), Some(Expr::Match(_)) | Some(Expr::If(_)) | Some(Expr::Block(_))) => {
+                // let (a, b) = e;
+                let init = l.init.as_ref().ok_or("let without initialiser")?;
+                let mut binds = Vec::new();
+                let (v, _) = self.expr(&init.expr, &mut binds)?;
+                let pat = self.for_pattern(&l.pat)?;
+                let restc = self.seq(rest, k)?;
+                Ok(Self::wrap_binds(binds, format!("let {} := {} in\n{}", pat, v, restc)))
             }
             Stmt::Local(l) => {
                 let init = l.init.as_ref().ok_or("let without initialiser")?;
@@ -1062,6 +1346,55 @@ impl<'a> Tr<'a> {
                 }
             }
         }
+        // f(x)?;  — a fallible call whose value is dropped
+        if let Expr::Try(tr) = e {
+            let mut binds = Vec::new();
+            if let Ok(r) = self.res_expr(&tr.expr, &mut binds) {
+                let restc = self.seq(rest, k)?;
+                return Ok(Self::wrap_binds(binds, format!("obind ({}) (fun _ =>\n{})", r, restc)));
+            }
+        }
+        // self.helper(args);  — a private helper of the same impl that mutates self and returns nothing:
+        // its body is translated in place as a block
+        if let Expr::MethodCall(m) = e {
+            let key = format!("{}/{}", m.method, m.args.len());
+            let known = self.t.method.contains_key(&key) || self.t.mutmethod.contains_key(&key) || self.t.pmutmethod.contains_key(&key) || self.t.rmutmethod.contains_key(&key);
+            if toks(&m.receiver) == "self" && !known && self.inline_depth < 3 {
+                if let (Some(file), Some(ty)) = (self.file, self.self_ty.clone()) {
+                    if let Some((sig, block)) = find_fn(file, &format!("{}::{}", ty, m.method)) {
+                        let unit = match &sig.output { syn::ReturnType::Default => true, syn::ReturnType::Type(_, t) => toks(&**t) == "()" };
+                        let params: Vec<(String, String)> = sig.inputs.iter().filter_map(|a| match a {
+                            syn::FnArg::Typed(p) => Some((match &*p.pat { Pat::Ident(i) => i.ident.to_string(), o => toks(o) }, toks(&p.ty))),
+                            _ => None,
+                        }).collect();
+                        let sc = scan_block_with(block, self.mk_scan());
+                        if unit && !sc.value_return && params.len() == m.args.len() && !params.iter().any(|(_, t)| t.starts_with("&mut")) {
+                            let mut binds = Vec::new();
+                            let mut argv = Vec::new();
+                            for a in &m.args {
+                                argv.push(self.expr(a, &mut binds)?.0);
+                            }
+                            let depth = self.env.len();
+                            let saved = self.env.clone();
+                            let mut pm: HashMap<String, (String, Kind)> = HashMap::new();
+                            for ((name, t), a) in params.iter().zip(argv.iter()) {
+                                pm.insert(name.clone(), (a.clone(), type_kind(t)));
+                            }
+                            self.env.push(pm);
+                            self.inline_depth += 1;
+                            let kk = K::Seq(unsafe { std::mem::transmute::<&[Stmt], &[Stmt]>(rest) }, Box::new(k.clone()), depth);
+                            let out = self.seq(&block.stmts, &kk);
+                            self.inline_depth -= 1;
+                            self.env = saved;
+                            // the variables the helper assigned keep their new versions: re-run is not needed because
+                            // the continuation was translated inside (K::Seq)
+                            let out = out.map_err(|e| format!("in the inlined helper {}: {}", m.method, e))?;
+                            return Ok(Self::wrap_binds(binds, out));
+                        }
+                    }
+                }
+            }
+        }
         match e {
             Expr::Macro(m) => {
                 let p = toks(&m.mac.path);
@@ -1075,7 +1408,7 @@ impl<'a> Tr<'a> {
             }
             Expr::Return(r) => match &r.expr {
                 Some(x) => self.ret(x),
-                None if self.t.retmode == "mutself" => self.retvars_value(),
+                None if self.mode() == "mutself" => self.retvars_value(),
                 None => Ok(self.in_loop("Ok tt".to_string())),
             },
             Expr::Assign(a) => {
@@ -1487,6 +1820,9 @@ impl<'a> Tr<'a> {
                 if let Some(c) = self.t.ctor.get(&n) {
                     return Ok(c.clone());
                 }
+                if n == "None" {
+                    return Ok("None".to_string());
+                }
                 let kind = self.t.kinds.get(&n).cloned().unwrap_or(Kind::Other);
                 Ok(self.bind(&n, kind))
             }
@@ -1721,6 +2057,7 @@ struct Scan {
     assigned: Vec<String>,
     mutmethods: Vec<String>,
     stmt_vars: Vec<(String, Vec<String>)>, // statement / condition texts of the table that assign variables
+    helpers: HashMap<String, Vec<String>>, // `self.helper(..)` of the same impl: the self.* variables its body assigns
 }
 impl<'ast> syn::visit::Visit<'ast> for Scan {
     fn visit_expr_return(&mut self, r: &'ast syn::ExprReturn) {
@@ -1778,6 +2115,15 @@ impl<'ast> syn::visit::Visit<'ast> for Scan {
         syn::visit::visit_expr_binary(self, b);
     }
     fn visit_expr_method_call(&mut self, m: &'ast syn::ExprMethodCall) {
+        if toks(&m.receiver) == "self" {
+            if let Some(vs) = self.helpers.get(&m.method.to_string()).cloned() {
+                for v in vs {
+                    if !self.assigned.contains(&v) {
+                        self.assigned.push(v);
+                    }
+                }
+            }
+        }
         let key = format!("{}/{}", m.method, m.args.len());
         if self.mutmethods.contains(&key) {
             let n = match &*m.receiver {
@@ -1814,6 +2160,18 @@ fn scan_block_with(b: &Block, mut sc: Scan) -> Scan {
 }
 
 // ---------------------------------------------------------------------------------------------
+// the kind of a value from its (whitespace-free) Rust type
+fn type_kind(t: &str) -> Kind {
+    let t = t.trim_start_matches('&');
+    match t {
+        "[u8]" | "Vec<u8>" | "Data" | "Hash" | "Nonce" => Kind::Bytes,
+        "u8" | "u16" | "u32" | "u64" | "usize" => Kind::Num,
+        "Tag" => Kind::Tag,
+        _ if t.starts_with("[u8;") => Kind::Bytes,
+        _ => Kind::Other,
+    }
+}
+
 fn parse_kind(s: &str) -> Kind {
     match s {
         "num" => Kind::Num,
@@ -2024,27 +2382,53 @@ fn find_fn<'f>(file: &'f syn::File, name: &str) -> Option<(&'f syn::Signature, &
     None
 }
 
-// local `const NAME: T = <int literal>;` declarations of the function body become table constants
+// the value of a constant integer expression: literals, + - * / % << >>, parentheses, casts, and
+// constants already known
+fn const_eval(e: &Expr, known: &HashMap<String, (String, Kind)>) -> Option<u128> {
+    match e {
+        Expr::Lit(l) => match &l.lit {
+            Lit::Int(i) => i.base10_digits().parse::<u128>().ok(),
+            _ => None,
+        },
+        Expr::Paren(p) => const_eval(&p.expr, known),
+        Expr::Group(p) => const_eval(&p.expr, known),
+        Expr::Cast(c) => const_eval(&c.expr, known),
+        Expr::Path(p) => known.get(&toks(p)).and_then(|(v, k)| if *k == Kind::Num { v.parse::<u128>().ok() } else { None }),
+        Expr::Binary(b) => {
+            let l = const_eval(&b.left, known)?;
+            let r = const_eval(&b.right, known)?;
+            match b.op {
+                BinOp::Add(_) => l.checked_add(r),
+                BinOp::Sub(_) => l.checked_sub(r),
+                BinOp::Mul(_) => l.checked_mul(r),
+                BinOp::Div(_) => l.checked_div(r),
+                BinOp::Rem(_) => l.checked_rem(r),
+                BinOp::Shl(_) => l.checked_shl(r as u32),
+                BinOp::Shr(_) => l.checked_shr(r as u32),
+                _ => None,
+            }
+        }
+        _ => None,
+    }
+}
+
+// local `const NAME: T = <constant integer expression>;` declarations of the function body become table constants
 fn local_consts(b: &Block, t: &mut Target) {
     for s in &b.stmts {
         if let Stmt::Item(Item::Const(c)) = s {
-            if let Expr::Lit(l) = &*c.expr {
-                if let Lit::Int(i) = &l.lit {
-                    t.consts.entry(c.ident.to_string()).or_insert((i.base10_digits().to_string(), Kind::Num));
-                }
+            if let Some(v) = const_eval(&c.expr, &t.consts) {
+                t.consts.entry(c.ident.to_string()).or_insert((v.to_string(), Kind::Num));
             }
         }
     }
 }
 
-// module-level `const NAME: T = <int literal>;`
+// module-level `const NAME: T = <constant integer expression>;` (in source order, so later ones may use earlier ones)
 fn module_consts(f: &syn::File, t: &mut Target) {
     for it in &f.items {
         if let Item::Const(c) = it {
-            if let Expr::Lit(l) = &*c.expr {
-                if let Lit::Int(i) = &l.lit {
-                    t.consts.entry(c.ident.to_string()).or_insert((i.base10_digits().to_string(), Kind::Num));
-                }
+            if let Some(v) = const_eval(&c.expr, &t.consts) {
+                t.consts.entry(c.ident.to_string()).or_insert((v.to_string(), Kind::Num));
             }
         }
     }
@@ -2062,7 +2446,21 @@ fn main() {
     // are left out too, everything else is still generated, so that only the theorems about the
     // affected functions lose their subject
     let mut missing: Vec<String> = Vec::new();
+    // --skip a,b,c : generated definitions that did not type-check in Coq on an earlier attempt of this run
+    let skip: Vec<String> = args
+        .iter()
+        .position(|a| a == "--skip")
+        .and_then(|i| args.get(i + 1))
+        .map(|s| s.split(',').filter(|x| !x.is_empty()).map(|x| x.to_string()).collect())
+        .unwrap_or_default();
     for t0 in targets {
+        if t0.raw.is_none() && skip.contains(&t0.coq) {
+            eprintln!("rs2coq: {} :: {} left out: its translation does not type-check", t0.file, t0.func);
+            text.push_str(&format!("\n(* NOT GENERATED on this run: the translation of {} :: {} does not type-check *)\n", t0.file, t0.func));
+            missing.push(t0.coq.clone());
+            failed = true;
+            continue;
+        }
         if let Some(r) = &t0.raw {
             if let Some(dep) = missing.iter().find(|m| mentions(r, m)).cloned() {
                 for name in defined_names(r) {
@@ -2159,7 +2557,7 @@ fn translate_target(repo: &str, t0: &Target) -> Result<String, String> {
     }
     module_consts(&file, &mut t);
     local_consts(block, &mut t);
-    let mut tr = Tr { t: &t, fresh: 0, env: vec![HashMap::new()], loop_depth: 0, loop_sr: Vec::new(), loop_brk: Vec::new() };
+    let mut tr = Tr { t: &t, fresh: 0, env: vec![HashMap::new()], loop_depth: 0, loop_sr: Vec::new(), loop_brk: Vec::new(), file: Some(&file), self_ty: t.func.split_once("::").map(|x| x.0.to_string()), mode_override: Vec::new(), inline_depth: 0 };
     let kw = if t.recfuel.is_some() { "Fixpoint" } else { "Definition" };
     let mut header = format!("{} {}", kw, t.coq);
     if t.recfuel.is_some() {
